@@ -143,7 +143,11 @@ def seq_items(j):
 # ------------------------------------------------------------------------------------------------
 
 LEAVES = {"int": "int", "str": "str", "float": "float",
-          "posint": {"c": "int", "ge": 0}, "str3": {"c": "str", "max_length": 3}}
+          "posint": {"c": "int", "ge": 0}, "str3": {"c": "str", "max_length": 3},
+          # element / value / field types that are THEMSELVES unions (an offending value leaves tmp errors behind)
+          "opt_int": {"opt": "int"}, "opt_posint": {"opt": {"c": "int", "ge": 0}},
+          "or_posint_str3": {"or": [{"c": "int", "ge": 0}, {"c": "str", "max_length": 3}]},
+          "xor_posint_str3": {"xor": [{"c": "int", "ge": 0}, {"c": "str", "max_length": 3}]}}
 
 _CACHE: dict = {}
 
@@ -180,6 +184,12 @@ def ann(desc, strict=False):
     elif "opt" in desc:
         from typing import Optional
         r = Optional[ann(desc["opt"], strict)]
+    elif "or" in desc:
+        from typing import Union
+        r = Union[tuple(ann(a, strict) for a in desc["or"])]
+    elif "xor" in desc:
+        a, b = (ann(x, strict) for x in desc["xor"])
+        r = a ^ b
     elif cons_of(desc):
         # a container with validators of its own: Rule.annotate(list, T, constraints={'max_length': 2})
         kind, elems = top(desc)
@@ -714,12 +724,20 @@ GOOD = {
     "posint": [0, 3, "5", 2.0, 11],
     "str3": ["a", "bc", 7, "xyz", ""],
     "float": [1.5, "2.5", 3],
+    "opt_int": [1, "2", None, 3.0, 17],
+    "opt_posint": [0, "5", None, 11],
+    "or_posint_str3": [3, "ab", "7", "xyz"],
+    "xor_posint_str3": ["ab", "xy", "q"],
 }
 BAD = {
     "int": ["x", "bad", "1.2.3", "z9"],
     "posint": [-1, "-5", "x", "bad"],
     "str3": ["toolong", "abcd", 12345],
     "float": ["x", "--1", "bad"],
+    "opt_int": ["x", "bad", "z9"],
+    "opt_posint": [-1, "x", "-5"],
+    "or_posint_str3": ["toolong", "abcd", -12345],
+    "xor_posint_str3": ["toolong", "abcd", -12345],
 }
 NESTED = {
     "list_int": ({"list": "int"}, [[1, "2"], [], (3,), [4]], [[1, "x"], ["bad"], [None, 2]]),
@@ -730,8 +748,8 @@ NESTED = {
 DISC_POOL = ({"union": ["P1", "P2"]},
              [{"kind": "p1", "x": 1}, {"kind": "p2"}, {"kind": "p2", "y": "3"}, {"kind": "p1"}],
              [{"kind": "zzz"}, {"kind": "p1", "x": "bad"}, {}, "junk", {"kind": 7}])
-HASHABLE_ELEMS = ["int", "posint", "str3", "float", "tuple_int"]
-ALL_ELEMS = ["int", "int", "posint", "str3", "float", "list_int", "tuple_int", "dict_s3_int", "pt", "data", "data"]
+HASHABLE_ELEMS = ["opt_int", "opt_posint", "or_posint_str3", "xor_posint_str3", "int", "posint", "str3", "float", "tuple_int"]
+ALL_ELEMS = ["opt_int", "opt_posint", "or_posint_str3", "xor_posint_str3", "int", "int", "posint", "str3", "float", "list_int", "tuple_int", "dict_s3_int", "pt", "data", "data"]
 
 
 def elem_pool(name):
@@ -811,7 +829,7 @@ def gen_seq(rng, kind=None, pattern=None, opts=None, via=None, ename=None, form=
 
 
 KEY_TYPES = ["int", "posint", "str3"]
-VAL_TYPES = ["int", "str3", "posint", None, "list_int", "pt"]
+VAL_TYPES = ["int", "str3", "posint", None, "list_int", "pt", "opt_int", "opt_posint", "or_posint_str3"]
 
 
 def gen_map(rng, entries=None, opts=None, via=None, kname=None, vname="?", union=None):
@@ -869,7 +887,7 @@ def gen_tuple_fixed(rng, opts=None):
 
 def gen_field(rng, name, shape=None, on_error="?", tname=None, deps=None, req=None):
     """shape: required | optional | default | modereq (required='w'...) | modereq_default (… with a default)"""
-    tname = tname or rng.choice(["int", "int", "posint", "str3", "list_int", "disc"])
+    tname = tname or rng.choice(["int", "int", "posint", "str3", "list_int", "disc", "opt_int", "opt_posint", "or_posint_str3"])
     desc = elem_pool(tname)[0]
     shape = shape or rng.choice(["required", "optional", "default", "default", "modereq", "modereq_default"])
     has_default = shape in ("default", "modereq_default")
@@ -880,7 +898,8 @@ def gen_field(rng, name, shape=None, on_error="?", tname=None, deps=None, req=No
     if tname == "disc":
         f["disc"] = "kind"
     if has_default:
-        f["default"] = enc({"int": rng.choice([7, 9]), "posint": rng.choice([7, 9]), "str3": "dd", "disc": None}.get(tname, [9]))
+        f["default"] = enc({"int": rng.choice([7, 9]), "posint": rng.choice([7, 9]), "str3": "dd", "disc": None, "opt_int": None,
+                            "opt_posint": 4, "or_posint_str3": "dd", "xor_posint_str3": "dd"}.get(tname, [9]))
     oe = rng.choice([None, None, "throw", "exclude", "preserve"]) if on_error == "?" else on_error
     if oe == "exclude" and req:
         oe = None       # Field() itself refuses a (mode-)required field with on_error='exclude'
@@ -1134,6 +1153,32 @@ def exhaustive_cases(rng, tier):
             for pv in POLICIES:
                 o = {"invalid_items": "throw", "invalid_keys": pk, "invalid_values": pv}
                 out.append(gen_map(rng, entries=list(ent), opts=o, via="rule", kname="int", vname="int", union=True))
+    # element / value / field types that are themselves unions: an offending one placed BEFORE valid (constrained) siblings
+    for kind in SEQ_KINDS:
+        for en in ["opt_int", "opt_posint", "or_posint_str3", "xor_posint_str3"]:
+            for pat in ["bg", "bgg", "gbg", "bbg", "gb"]:
+                for pol in POLICIES:
+                    for via in ["rule", "schema"]:
+                        o = {"invalid_items": pol, "invalid_keys": "throw", "invalid_values": "throw"}
+                        out.append(gen_seq(rng, kind=kind, pattern=pat, opts=o, via=via, ename=en, form=kind, cons=None, union=False))
+    for vn in ["opt_int", "opt_posint", "or_posint_str3", "xor_posint_str3"]:
+        for ent in [["gb", "gg"], ["gb", "gg", "gg"], ["gg", "gb", "gg"], ["gb", "gb", "gg"]]:
+            for pk in ["throw", "exclude"]:
+                for pv in ["exclude", "preserve"]:
+                    for via in ["rule", "schema"]:
+                        o = {"invalid_items": "throw", "invalid_keys": pk, "invalid_values": pv}
+                        out.append(gen_map(rng, entries=list(ent), opts=o, via=via, kname="posint", vname=vn, union=False))
+    for tn in ["opt_int", "opt_posint", "or_posint_str3", "xor_posint_str3"]:
+        for shape in ["optional", "default"]:
+            for inv in POLICIES:
+                for oe in [None, "exclude", "preserve"]:
+                    for dfs in [True, False]:
+                        fa = gen_field(rng, "a", shape=shape, on_error=oe, tname=tn)
+                        fb = gen_field(rng, "b", shape="required", on_error=None, tname="str3")
+                        fc = gen_field(rng, "c", shape="default", on_error=None, tname="list_int")
+                        out.append(gen_schema(rng, fields=[fa, fb, fc], presence=["bad", "good", "good"], extras=[],
+                                              opts={"invalid_values": inv, "invalid_items": "throw", "data_first_search": dfs},
+                                              props=[], order=["a", "b", "c"]))
     # containers with validators of their own (min_length / max_length) x placements x the three item policies
     for kind in ["list", "tuple", "set"]:
         for cons in [{"min_length": 2}, {"min_length": 3}, {"max_length": 1}, {"max_length": 2}]:
